@@ -59,7 +59,7 @@ def rowsJ (r : Except String (List Node)) : R Json :=
   | .ok rows => pure (listJ (fun (nd : Node) => Json.arr #[natJ nd.idx, ptJ nd.pt]) rows)
   | .error e => throw e
 
-/-- one step of a history: `["D"]`, `["G", N|null]`, `["H", N|null]`. -/
+/-- one step of a history: `["D"]`, `["O", …]` (read-only observer), `["G", N|null]`, `["H", N|null]`. -/
 def histStep (σ : Nat → Nat → Nat → Nat) (kind : Kind) (acc : St × List Json) (op : Json) : R (St × List Json) := do
   let a ← asArr op
   match a with
@@ -74,6 +74,7 @@ def histStep (σ : Nat → Nat → Nat → Nat) (kind : Kind) (acc : St × List 
       | .error e => Json.mkObj [("err", Json.str e)]
     match name with
     | "D" => pure (divide σ kind acc.1, acc.2 ++ [Json.mkObj [("ok", natJ (divide σ kind acc.1).nodes.length)]])
+    | "O" => pure (observe acc.1, acc.2 ++ [Json.mkObj [("ok", natJ (observe acc.1).nodes.length)]])
     | "G" => do
       let n ← nOpt
       pure (acc.1, acc.2 ++ [wrap (rowsJ (getNodes acc.1 n))])
